@@ -57,6 +57,13 @@ var propDefs = map[string]*PropDef{
 			"columns count bytes, not characters",
 		},
 	},
+	"C17": {
+		ID: "C17", Funcs: "all", Floor: 15,
+		Unmech: []string{
+			"the output-level statements (no raw < > \" ' in escape's output, unescaping gives the input back, addslashes puts a backslash before every quote and backslash and nothing else) follow from the proved call structure by a lemma about strings.Replace with single-character patterns applied in this order; the lemma is on paper (the engine has no replace theory)",
+			"urlencode/iriencode delegate the encoding to net/url.QueryEscape, striptags/removetags to regular expressions: library code, assumed",
+		},
+	},
 	"C18": {
 		ID: "C18", Kinds: []string{}, Funcs: "all", Floor: 25,
 		Unmech: []string{
